@@ -309,6 +309,29 @@ func batchModels(all bool) []*batchModel {
 	mkModel("MatMul-batched(N,2,3)", "x", []hx.DimSpec{N, fx(2), fx(3)}, batchIO{[]int{1, 2, 3}, 0}, nil, []*onnx.NodeProto{hx.Node("MatMul", []string{"x", "W"}, []string{"y"}, nil)}, []*onnx.TensorProto{init("W", 3, 2)}, map[string]int{"y": 0}, nil, nil)
 	mkModel("Flatten+Gemm(N,2,3)", "x", []hx.DimSpec{N, fx(2), fx(3)}, batchIO{[]int{1, 2, 3}, 0}, nil, []*onnx.NodeProto{hx.Node("Flatten", []string{"x"}, []string{"f"}, []hx.Attr{hx.AInt("axis", 1)}), hx.Node("Gemm", []string{"f", "W6", "b"}, []string{"y"}, nil)}, []*onnx.TensorProto{init("W6", 6, 2), init("b", 2)}, map[string]int{"y": 0, "f": 0}, nil, nil)
 	mkModel("Softmax{axis=1}(N,3,2)", "x", []hx.DimSpec{N, fx(3), fx(2)}, batchIO{[]int{1, 3, 2}, 0}, nil, []*onnx.NodeProto{hx.Node("Softmax", []string{"x"}, []string{"y"}, []hx.Attr{hx.AInt("axis", 1)}), hx.Node("Transpose", []string{"y"}, []string{"t"}, []hx.Attr{hx.AInts("perm", 0, 2, 1)})}, nil, map[string]int{"y": 0, "t": 0}, nil, nil)
+	// data-movement operators on (N,seq,feat) and (N,c,h,w) samples: Gather on every non-batch axis with a scalar (rank-0), a
+	// vector and a matrix index, non-negative and negative ("the last step"); Transpose with every permutation of rank 3
+	// and the layout changes of rank 4 - the batch axis then sits wherever the permutation sends it
+	for _, ax := range []int{1, 2, -1, -2} {
+		for iname, idx := range map[string]*ref.T{"scalar0": ref.FromI(ref.I64, []int{}, 0), "scalar-1": ref.FromI(ref.I64, []int{}, -1), "scalar1": ref.FromI(ref.I64, []int{}, 1),
+			"vec": ref.I64Vec(-1, 0), "vec1": ref.I64Vec(-2), "mat": ref.FromI(ref.I64, []int{2, 1}, 1, -1)} {
+			mkModel(fmt.Sprintf("Gather{axis=%d,%s}(N,3,2)", ax, iname), "x", []hx.DimSpec{N, fx(3), fx(2)}, batchIO{[]int{1, 3, 2}, 0}, nil,
+				[]*onnx.NodeProto{hx.Node("Gather", []string{"x", "gidx"}, []string{"y"}, []hx.Attr{hx.AInt("axis", int64(ax))})}, []*onnx.TensorProto{hx.TensorProto("gidx", idx, "raw")}, map[string]int{"y": 0}, nil, nil)
+		}
+	}
+	for _, perm := range [][]int64{{0, 1, 2}, {0, 2, 1}, {1, 0, 2}, {1, 2, 0}, {2, 0, 1}, {2, 1, 0}, {0, 2, 3, 1}, {0, 3, 1, 2}, {1, 0, 2, 3}, {3, 2, 1, 0}, {2, 3, 0, 1}, {1, 2, 3, 0}, {3, 0, 1, 2}, {2, 0, 3, 1}} {
+		dims, sample := []hx.DimSpec{N, fx(3), fx(2)}, []int{1, 3, 2}
+		if len(perm) == 4 {
+			dims, sample = []hx.DimSpec{N, fx(2), fx(3), fx(2)}, []int{1, 2, 3, 2}
+		}
+		at := 0
+		for i, p := range perm {
+			if p == 0 {
+				at = i
+			}
+		}
+		mkModel(fmt.Sprintf("Transpose{perm=%v}", perm), "x", dims, batchIO{sample, 0}, nil, []*onnx.NodeProto{hx.Node("Transpose", []string{"x"}, []string{"y"}, []hx.Attr{hx.AInts("perm", perm...)})}, nil, map[string]int{"y": at}, nil, nil)
+	}
 	mkModel("Conv2D+bias", "x", []hx.DimSpec{N, fx(2), fx(3), fx(4)}, batchIO{[]int{1, 2, 3, 4}, 0}, nil, []*onnx.NodeProto{hx.Node("Conv", []string{"x", "K", "kb"}, []string{"y"}, []hx.Attr{hx.AInts("pads", 1, 0, 0, 1), hx.AInts("strides", 1, 2)})}, []*onnx.TensorProto{init("K", 2, 2, 2, 2), init("kb", 2)}, map[string]int{"y": 0}, nil, nil)
 	mkModel("Conv2D-1x1", "x", []hx.DimSpec{N, fx(2), fx(3), fx(4)}, batchIO{[]int{1, 2, 3, 4}, 0}, nil, []*onnx.NodeProto{hx.Node("Conv", []string{"x", "K1"}, []string{"y"}, nil)}, []*onnx.TensorProto{init("K1", 3, 2, 1, 1)}, map[string]int{"y": 0}, nil, nil)
 	mkModel("Conv1D+bias", "x", []hx.DimSpec{N, fx(2), fx(5)}, batchIO{[]int{1, 2, 5}, 0}, nil, []*onnx.NodeProto{hx.Node("Conv", []string{"x", "K", "kb"}, []string{"y"}, []hx.Attr{hx.AInts("dilations", 2)})}, []*onnx.TensorProto{init("K", 2, 2, 2), init("kb", 2)}, map[string]int{"y": 0}, nil, nil)
